@@ -1,4 +1,5 @@
 import DEvo.Sig.DiffLemmas
+import DEvo.Generated.Tables
 import DEvo.Mut.Env
 import DEvo.Mut.Refs
 
@@ -318,5 +319,10 @@ theorem C05_closure_deleteField (e : Env) (m : ModelSig) (n : String) (f : Field
       · have : (!(x.name == n)) = true := by simp [hx]
         simp only [List.filter_cons, this, if_true, List.find?_cons]
         split <;> simp_all
+
+/-- **tie of the default lookup to the source**: `FieldSignature.get_attr_default` consults the field type's
+own defaults before the generic ones — the order `Env.attrDefault` (and with it every diff / closure theorem
+above) assumes.  Read from the source on every run (Generated/Tables.lean). -/
+theorem C05_source_default_order : DEvo.Generated.attrDefaultTypeFirst = true := by decide
 
 end DEvo.Props.C05
